@@ -246,6 +246,9 @@ def queries(f):
     if 'time' in vars_ or 'TFLAG' in vars_ or 'tau0' in vars_:
         qs.append({'q': 'getTimes'})
         qs.append({'q': 'getTimes', 'bounds': True})
+    if 'time' in vars_ and vars_['time'][0] == ('time',):
+        qs.append({'q': 'date2num'})
+        qs.append({'q': 'time2idx'})
     return qs
 
 
@@ -278,4 +281,8 @@ def do_query(f, q, tmpdir):
         return f.val2idx(q['dim'], vals, method=q['method'], bounds='ignore')
     if name == 'getTimes':
         return f.getTimes(bounds=q.get('bounds', False))
+    if name == 'date2num':
+        return f.date2num(f.getTimes(), timekey='time')
+    if name == 'time2idx':
+        return f.time2idx(f.getTimes(), dim='time')
     raise ValueError(q)
